@@ -109,8 +109,11 @@ func (s *MemoryStore) seek(rng SeekRange, f func(k, v []byte) bool, lock func(),
 		return strings.HasPrefix(key, sPrefix) && (lStart == 0 || cmp.Compare(key[lPrefix:], sStart) >= 0)
 	}
 	if rng.Backwards {
+		// Backwards seek starts from the last key that has Prefix+Start as
+		// its prefix (the same way persistent stores do), so keys extending
+		// Prefix+Start belong to the result.
 		isKeyOK = func(key string) bool {
-			return strings.HasPrefix(key, sPrefix) && (lStart == 0 || cmp.Compare(key[lPrefix:], sStart) <= 0)
+			return strings.HasPrefix(key, sPrefix) && (lStart == 0 || cmp.Compare(key[lPrefix:], sStart) <= 0 || strings.HasPrefix(key[lPrefix:], sStart))
 		}
 	}
 	var cmpFunc = getCmpFunc(rng.Backwards)
